@@ -543,7 +543,7 @@ def run(ctx):
         "symmetry of the scalar fuzzy predicate (proved for C10) enters C16_symm as the named hypothesis FuzzySymm",
     ]
     rng = ctx.rng
-    n = ctx.scale(700, 25000)
+    n = ctx.scale(700, 12000)
     check_compat_table(ctx)
     rows = []
     pairs = [directed_f7(rng), directed_f14(rng)]
